@@ -15,7 +15,7 @@ if [ "$demo" != "-" ]; then
 fi
 cd /verif
 for p in "$@"; do
-  out=$(PYLOPS_REPO="$d" ./check "$p" quick 2>&1)
+  out=$(PYLOPS_REPO="$d" VERIF_EVIDENCE_DIR="$d/evidence" ./check "$p" quick 2>&1)
   rc=$?
   echo "$p: exit $rc; $(echo "$out" | grep -c '^VIOLATION') violation lines; $(echo "$out" | grep '^VIOLATION' | grep -c no-failing-input-found) without input"
   echo "$out" | grep -A1 '^VIOLATION' | grep -v '^VIOLATION\|^--' | head -3 | cut -c1-230
